@@ -20,7 +20,7 @@ ASSUMPTIONS = [
 ]
 REQUIRED_OBS = {"proposals_checked": 40, "hnw_compared": 15, "followup_solves": 10}
 
-PATTERNS = ["normal", "zero", "tiny", "huge", "mixed"]
+PATTERNS = ["normal", "zero", "tiny", "huge", "mixed", "partly_zero", "extreme_mix", "negative_dominant"]
 FIELDS = ["decay", "logistic", "equilibrium", "constant", "stiff"]
 
 
@@ -32,13 +32,13 @@ def cases(tier, seed):
     for helper in ("dt0", "dt0_adaptive"):
         for pat in PATTERNS:
             for fld in FIELDS:
-                if pat == "huge" and fld == "logistic":
+                if pat in ("huge", "extreme_mix", "negative_dominant") and fld == "logistic":
                     continue  # u*(1-u) overflows at 1e300: the vector field itself is not finite there
-                for _ in range(reps):
+                for _ in range(reps * (3 if pat in ("partly_zero", "extreme_mix", "negative_dominant") else 1)):
                     out.append(
                         {
                             "id": f"{helper}-{pat}-{fld}-{k}", "helper": helper, "pattern": pat, "field": fld,
-                            "d": rng.randint(1, 4), "pytree": rng.random() < 0.4,
+                            "d": rng.randint(2 if pat in ("partly_zero", "extreme_mix", "negative_dominant") else 1, 4), "pytree": rng.random() < 0.4,
                             "atol": 10 ** rng.uniform(-12, 0), "rtol": 10 ** rng.uniform(-12, 0),
                             "rate": rng.randint(1, 12), "t0": rng.uniform(-1, 1), "seedm": rng.randrange(10**9),
                         }
@@ -56,6 +56,25 @@ def _u0(pattern, d, r):
         return 1e-300 * r.uniform(1, 9, size=d)
     if pattern == "huge":
         return 1e300 * r.uniform(0.1, 1, size=d)
+    if pattern == "partly_zero":
+        # some components exactly zero, the others of either sign (norms whose largest entry is negative, zero maxima)
+        u = r.uniform(0.2, 3.0, size=d) * r.choice([-1, 1], size=d)
+        u[r.permutation(d)[: max(1, d // 2)]] = 0.0
+        return u
+    if pattern == "negative_dominant":
+        # one component dominates in magnitude with a fixed sign, the rest are zero or far smaller with the other sign:
+        # signed maxima and magnitudes disagree for the state or for its derivative (seed C18-s3: abs(amax) for amax(abs))
+        sgn = float(r.choice([-1, 1]))
+        big = float(r.choice([1e300, 1e150, 3.0, 1e-150])) * r.uniform(0.5, 1.0)
+        u = -sgn * big * 1e-30 * r.uniform(0, 1, size=d) * (r.random(size=d) < 0.5)
+        u[int(r.integers(0, d))] = sgn * big
+        return u
+    if pattern == "extreme_mix":
+        # every component drawn independently from {+-1e300, +-1e-300, +-O(1), 0}
+        kinds = r.integers(0, 4, size=d)
+        mag = np.where(kinds == 0, 1e300 * r.uniform(0.1, 1, size=d), np.where(kinds == 1, 1e-300 * r.uniform(1, 9, size=d),
+                       np.where(kinds == 2, r.uniform(0.5, 2, size=d), 0.0)))
+        return mag * r.choice([-1, 1], size=d)
     u = r.uniform(0.5, 2, size=d)
     u[0] *= 1e-12
     if d > 1:
